@@ -177,7 +177,29 @@ def inverse_topology(outer, update, topology, inverse=None, multi_updates=True):
                 else:
                     inner = outer
 
+                # structural updates ('_add', '_delete', ...) are for the
+                # store of the children itself, not for a child
+                structural = {
+                    child: child_update
+                    for child, child_update in update.items()
+                    if isinstance(child, str) and child.startswith('_')}
+                if structural:
+                    if multi_updates:
+                        inverse = update_in(
+                            inverse,
+                            inner,
+                            lambda current: merge_variable_updates(
+                                current, structural))
+                    else:
+                        inverse = update_in(
+                            inverse,
+                            inner,
+                            lambda current: deep_merge(
+                                current, copy_dicts(structural)))
+
                 for child, child_update in update.items():
+                    if child in structural:
+                        continue
                     # variables of the child that the topology does not
                     # mention are wired to the store of the same name,
                     # as they are when read
